@@ -69,7 +69,7 @@ Definition init_out (f : pixfmt) (wds : list Z) (compress quality : Z) (jpeg cur
   ++ fur_bytes 0 0 0 w h.
 
 Definition init_state (f : pixfmt) (sigmax w h : Z) : cst :=
-  mkcst w h (new_fb w h) f sigmax (-1) [false; false; false; false; false] false (0, 0, w, h) true 4095 [] [] (0, 0) false false false.   (* baseline: the repaired control flow (fix commits dd06ff7..a7a3a60 = bits 0..6, d211e4c = bit 7, 281f33a = bit 8, a41e88e = bit 9, a24a50e = bit 10, 9fe693e = bit 11) *)
+  mkcst w h (new_fb w h) f sigmax (-1) [false; false; false; false; false] false (0, 0, w, h) true 8191 [] [] (0, 0) false false false.   (* baseline: the repaired control flow (fix commits dd06ff7..a7a3a60 = bits 0..6, d211e4c = bit 7, 281f33a = bit 8, a41e88e = bit 9, a24a50e = bit 10, 9fe693e = bit 11; bit 12 = notes/fix_C07_4.diff, ZRLE raw_buffer sized by zrle_bound) *)
 
 Definition clr_log (s : cst) : cst :=
   mkcst (c_w s) (c_h s) (c_fb s) (c_fmt s) (c_sigmax s) (c_rawsz s) (c_zact s) (c_taint s) (c_upd s) (c_canfur s) (c_fix s) [] [] (c_screen s) (c_reqrs s) (c_zrlez s) (c_zlibz s).
